@@ -263,7 +263,11 @@ pub fn draw_req(r: &mut Rng) -> FmtReq {
             ((1u64 << e) + r.below(1u64 << e)) as u32
         }
     };
-    let total = total.clamp(1, 90_000);
+    let mut total = total.clamp(1, 90_000);
+    // FAT32 with clusters larger than a sector needs more sectors than the small sizes above
+    if spc >= 2 && spc <= 16 && r.chance(1, 5) {
+        total = (65_530 * spc + r.below(3000 * spc) + 1100) as u32;
+    }
     let per_sec = (bps / 32) as u32;
     let root: Option<u16> = match r.below(8) {
         0 => None,
@@ -308,7 +312,10 @@ pub fn full_format(seed: u64) -> RunOutcome {
     let bps = u64::from(q.bps);
     let vol_len = u64::from(q.total_sectors) * bps;
     let dev_len = vol_len + u64::from(q.extra_sectors) * bps + if q.explicit_total { 0 } else { r.below(bps) };
-    let store = if q.extra_sectors > 0 { Store::with_canary(dev_len, vol_len) } else { Store::new(dev_len) };
+    let mut store = if q.extra_sectors > 0 { Store::with_canary(dev_len, vol_len) } else { Store::new(dev_len) };
+    // a third of the requests re-format a medium that holds old (non-zero) data everywhere
+    store.dirty_medium = dev_len <= (640 << 20) && r.chance(1, 3);
+    let dirty_medium = store.dirty_medium;
     let st = Rc::new(RefCell::new(DiskState::new(store)));
     st.borrow_mut().log_mode = LogMode::Off;
     st.borrow_mut().benign_rng = Rng::new(seed ^ 0xF00D);
@@ -332,6 +339,9 @@ pub fn full_format(seed: u64) -> RunOutcome {
             match check_formatted(&img, &q, &clock) {
                 Ok(g) => {
                     *o.counters.entry(format!("accepted_fat{}", g.fat_bits)).or_insert(0) += 1;
+                    if dirty_medium {
+                        *o.counters.entry("formatted_over_old_data".into()).or_insert(0) += 1;
+                    }
                     o.distinct.push(crate::rng::hash_bytes(u64::from(g.n_clusters), format!("{}:{}:{}:{}:{}", g.fat_bits, g.bps, g.spc, g.spf, g.root_entries).as_bytes()));
                     o.sample = Some(json!({"request": format!("{:?}", q), "result": format!("FAT{} clusters={} spf={} reserved={}", g.fat_bits, g.n_clusters, g.spf, g.reserved)}));
                 }
